@@ -17,10 +17,10 @@ GUARD = ("element trees the builder produces: slot names per class as regenerate
          "declarations, OSM tags and external instances in the tree ops (the direct oracle covers them)")
 MODELLED = ("SurveyElement.to_json_dict with the Question/Option/Survey/GroupedSection overrides and create_survey_element_from_dict, as element "
             "tree <-> dict functions (coq/Model/Dump.v on the repaired code; slot names and the shape of every to_json_dict are regenerated / "
-            "pinned from /repo). The key order of a dump and json.dumps/json.loads are not modelled (the oracle exercises them); that the XML "
+            "pinned from /repo). json.dumps/json.loads are modelled separately (coq/Model/Json.v, round trip proved for every value without surrogates); the key order of a dump is not modelled; that the XML "
             "generator reads fields only through their truth value and never reads the extra_data of non-options is the `view` assumption")
 ASSUMPTIONS = ["the XML generator reads an element only through view (non-empty public fields, an option's extra columns, children, choice lists)",
-               "json.dumps / json.loads round-trip dict/list/str/bool/None values (tested by the oracle, not modelled)"]
+               "json.dumps / json.loads are modelled for str/None/bool/list/dict values (Model/Json.v, ops J.dumps and J.loads); numbers are outside the model"]
 
 
 def to_jv(v):
@@ -200,8 +200,90 @@ class ReloadOp(Op):
         return cases
 
 
+def gen_json_value(rng, depth=0):
+    strs = ["", "a", "label", "é", "日本", "😀", "a\"b", "back\\slash", "line\nbreak", "tab\t", "\x01", "\x7f", "\u2028", "${q} > 1", "<b>&amp;</b>", "'", "/", "\r", "\x08\x0c", "\U0010ffff"]
+    r = rng.random()
+    if depth > 3 or r < 0.45:
+        return rng.choice(strs) if rng.random() < 0.8 else rng.choice([None, True, False])
+    if r < 0.7:
+        return [gen_json_value(rng, depth + 1) for _ in range(rng.randint(0, 3))]
+    return {rng.choice(strs) + str(i): gen_json_value(rng, depth + 1) for i in range(rng.randint(0, 3))}
+
+
+def has_number(v):
+    if isinstance(v, bool) or v is None or isinstance(v, str):
+        return False
+    if isinstance(v, (int, float)):
+        return True
+    if isinstance(v, list):
+        return any(has_number(x) for x in v)
+    return any(has_number(x) for x in v.values())
+
+
+class JsonDumpsOp(Op):
+    """json.dumps against the model's dumps, on synthetic values and on the JSON forms of real workbooks"""
+    name = "J.dumps"
+    imports = ["PX.Model.Dump", "PX.Model.Json"]
+    fn = "dumps"
+    in_ty = "jv"
+    n_quick, n_thorough = 200, 2000
+
+    def generate(self, rng, n):
+        from pyxform.errors import PyXFormError
+        cases = []
+        for i in range(n):
+            if i % 4 == 0:
+                try:
+                    v = build(gen_survey(rng))
+                except PyXFormError:
+                    continue
+                if has_number(v):
+                    continue
+                cls = "form"
+            else:
+                v = gen_json_value(rng)
+                cls = "synthetic"
+            cases.append({"coq": to_jv(v), "expected": json.dumps(v), "desc": v if cls == "synthetic" else "JSON form of a generated workbook", "class": cls,
+                          "nontrivial": isinstance(v, (list, dict)) and len(v) > 0})
+        return cases
+
+
+class JsonLoadsOp(Op):
+    """json.loads against the model's loads, on dumps output with optional extra white space, and on damaged text"""
+    name = "J.loads"
+    imports = ["PX.Model.Dump", "PX.Model.Json"]
+    fn = "fun s => match loads s with Some v => 79%N :: render v | None => [69%N] end"
+    n_quick, n_thorough = 200, 2000
+
+    def generate(self, rng, n):
+        cases = []
+        for _ in range(n):
+            v = gen_json_value(rng)
+            mode = rng.choice(["plain", "plain", "indent", "noascii", "damaged"])
+            if mode == "plain":
+                t = json.dumps(v)
+            elif mode == "indent":
+                t = json.dumps(v, indent=rng.choice([1, 2]))
+            elif mode == "noascii":
+                t = json.dumps(v, ensure_ascii=False)
+            else:
+                t = json.dumps(v)
+                if t:
+                    k = rng.randrange(len(t))
+                    t = t[:k] + rng.choice(["", ",", "]", "\\", '"', "x"]) + t[k + 1:]
+            try:
+                back = json.loads(t)
+                exp = "E" if has_number(back) else "O" + render(back)
+            except (json.JSONDecodeError, RecursionError):
+                exp = "E"
+            if mode == "damaged" and exp != "E" and not isinstance(back, (str, list, dict, bool, type(None))):
+                continue
+            cases.append({"coq": cstr(t), "expected": exp, "desc": t, "class": mode, "nontrivial": exp != "E"})
+        return cases
+
+
 def ops(tier):
-    return [DumpOp(), ReloadOp()]
+    return [DumpOp(), ReloadOp(), JsonDumpsOp(), JsonLoadsOp()]
 
 
 # ---- direct oracle ---------------------------------------------------------------------------------------------
